@@ -199,6 +199,7 @@ type Tree struct {
 	FA  []int    ` + "`json:\"fa,omitempty\"`" + `
 	To  *Tree    ` + "`json:\"to,omitempty\"`" + `
 	Nil bool     ` + "`json:\"nil,omitempty\"`" + `
+	Cap int      ` + "`json:\"cap,omitempty\"`" + `
 }
 
 type fp struct {
@@ -271,6 +272,7 @@ func (f *fp) tree(v reflect.Value, depth int) *Tree {
 			if v.Len() > 0 {
 				t.ID = f.id(v.Pointer())
 			}
+			t.Cap = v.Cap()
 			for i := 0; i < v.Len(); i++ {
 				t.E = append(t.E, f.tree(v.Index(i), depth+1))
 			}
